@@ -135,15 +135,21 @@ Notation wf_ty := (wf_ty_g false).
 
 (* ---- the region in which the default-engine loader is strict -----------------
    no field annotated `None` on its own (finding F46), no fixed-arity tuple has a member
-   that may be None (finding F45). *)
+   that may be None (finding F45), no two-member Union written None-first (finding F55). *)
 Definition is_tnone (t : ty) : bool := match t with TNone => true | _ => false end.
+(* Union[None, X] - a two-member Union written None-first (finding F55): the default engine builds
+   OptionalParser(args[0]) = OptionalParser(NoneType), i.e. the identity parser *)
+Definition none_first2 (ts : list ty) : bool :=
+  match ts with [a; _] => is_tnone a | _ => false end.
+Definition optional_like (ts : list ty) : bool :=
+  match ts with [a; b] => is_tnone a || is_tnone b | _ => false end.
 Fixpoint safe_ty (t : ty) : bool :=
   match t with
   | TNone => false
   | TSeq _ t' | TVarTuple t' | TOptional t' => safe_ty t'
   | TTuple ts => forallb (fun t' => negb (accepts_none t') && safe_ty t') ts
   | TDict _ kt vt => safe_ty kt && safe_ty vt
-  | TUnion ts => forallb (fun t' => is_tnone t' || safe_ty t') ts
+  | TUnion ts => forallb (fun t' => is_tnone t' || safe_ty t') ts && negb (none_first2 ts)
   | TNamedTuple _ fts | TData _ fts => forallb (fun ft => safe_ty (fst ft)) fts
   | TTypedDict _ req opt => forallb (fun kt => safe_ty (snd kt)) req && forallb (fun kt => safe_ty (snd kt)) opt
   | _ => true
